@@ -184,11 +184,17 @@ def f_list(case):
             nt_idx = (ix['c'] or 1) != 1
         elif ix['t'] == 'mask':
             m = np.array((ix['bits'] * n)[:n], dtype=bool)
-            it = P[m if be == 'np' else B.torch_mods()['torch'].tensor(m)]; want = [x for x, b in zip(refl, m) if b]
+            form = ix.get('form', 0) % 3       # the same mask as numpy bool array / Python list of bools / native tensor
+            arg = m if form == 0 else ([bool(x) for x in m] if form == 1 else (B.torch_mods()['torch'].tensor(m) if be == 'torch' else m.copy()))
+            it = P[arg]; want = [x for x, b in zip(refl, m) if b]
             nt_idx = True
         else:
             idx = np.array([j % n for j in ix['idx']], dtype=int)
-            it = P[idx if be == 'np' else B.torch_mods()['torch'].tensor(idx)]; want = [refl[j] for j in idx]
+            form = ix.get('form', 0) % 3       # index array as numpy ints / Python list / native tensor
+            arg = idx if form == 0 else ([int(x) for x in idx] if form == 1 else (B.torch_mods()['torch'].tensor(idx) if be == 'torch' else idx.astype(np.int32)))
+            if len(idx) == 0 and form == 1:
+                arg = idx       # an empty Python list is ambiguous for numpy indexing; keep the array form
+            it = P[arg]; want = [refl[j] for j in idx]
             nt_idx = True
         li, ki = Bk.read_list(it) if len(want) else (np.zeros((0, N)), np.zeros(0))
         check(len(it) == len(want), 'index %s selected %d rows, expected %d' % (ix, len(it), len(want)), 'getitem')
@@ -202,8 +208,8 @@ def st_index(neg_step=True):
     return st.one_of(
         st.fixed_dictionaries({'t': st.just('int'), 'i': st.integers(0, 20), 'neg': st.booleans(), 'npint': st.booleans()}),
         st.fixed_dictionaries({'t': st.just('slice'), 'a': st.one_of(st.none(), st.integers(-6, 6)), 'b': st.one_of(st.none(), st.integers(-6, 6)), 'c': st.sampled_from(steps)}),
-        st.fixed_dictionaries({'t': st.just('mask'), 'bits': st.lists(st.booleans(), min_size=1, max_size=6)}),
-        st.fixed_dictionaries({'t': st.just('index'), 'idx': st.lists(st.integers(0, 20), min_size=0, max_size=6)}))
+        st.fixed_dictionaries({'t': st.just('mask'), 'bits': st.lists(st.booleans(), min_size=1, max_size=6), 'form': st.integers(0, 2)}),
+        st.fixed_dictionaries({'t': st.just('index'), 'idx': st.lists(st.integers(0, 20), min_size=0, max_size=6), 'form': st.integers(0, 2)}))
 
 
 def st_list(be, hiN, hows):
